@@ -170,7 +170,8 @@ type Sim struct {
 	pilotCalls  []string
 	held        []*call
 	stmtFailHit bool
-	crashInc    string // armed: incarnation inside a switchover attempt
+	lastMut     map[string]string // sender>server: the sender's previous changing statement
+	crashInc    string            // armed: incarnation inside a switchover attempt
 	crashCount  int
 	crashDone   bool
 	bHist       *[]*dcsHist
